@@ -229,6 +229,28 @@ def _int_arm(d):
     return d.node.body
 
 
+def _eval_through_helper(repo, d, v, f):
+    """value of the normalised key; a call of a package-level helper `h(key, len(self))` is followed into the helper (its body is folded with
+    the same constants: tests, raise, return), so that moving the normalisation into a shared function leaves the table decidable"""
+    if isinstance(v, ast.Call) and isinstance(v.func, (ast.Name, ast.Attribute)) and not v.keywords:
+        target = repo.resolve_expr(v.func, d.module, d) if isinstance(v.func, ast.Attribute) else repo.lookup_name(v.func.id, d.module, d)
+        from ..model import Def as _Def
+        if isinstance(target, _Def) and not target.is_lambda and target.cls is None:
+            params = target.params
+            if len(params) == len(v.args):
+                env = {}
+                for p_, a_ in zip(params, v.args):
+                    env[p_] = 5 if norm_src(a_) == "len(self)" else f.eval(a_)
+                body = [s_ for s_ in target.node.body if not (isinstance(s_, ast.Expr) and isinstance(s_.value, ast.Constant))]
+                out = run_block(body, Folder(repo, target.module, target, env), lambda c: False)
+                if out.raised:
+                    return "raise"
+                if out.returned:
+                    return out.value
+                raise Unfoldable(v, "helper does not return")
+    return f.eval(v)
+
+
 def idxnorm(ctx, col):
     repo = ctx.repo
     sites = [("swcgeom.core.tree.Tree.__getitem__", "key"), ("swcgeom.core.path.Path.__getitem__", "key"),
@@ -255,7 +277,7 @@ def idxnorm(ctx, col):
                     v = last.value
                     if isinstance(v, ast.Call) and len(v.args) == 1:
                         v = v.args[0]
-                    got = f.eval(v)
+                    got = _eval_through_helper(repo, d, v, f)
                 else:
                     got = "?"
             except Unfoldable as ex:
